@@ -202,13 +202,29 @@ class Compiler:
         if order:
             nodes = [nodes[i] for i in order]
         graph = hg.Graph(nodes, name=g.get("name"))
+        touch = bool(g.get("touch"))
+        if touch:
+            self._touch_graph(graph)
         if g.get("bind"):
             graph = graph.bind(**g["bind"])
+            if touch:
+                self._touch_graph(graph)
         if g.get("entrypoints"):
             graph = graph.with_entrypoint(*g["entrypoints"])
+            if touch:
+                self._touch_graph(graph)
         if g.get("select"):
             graph = graph.select(*g["select"])
+            if touch:
+                self._touch_graph(graph)
         return graph
+
+    @staticmethod
+    def _touch_graph(graph: Any) -> None:
+        """Read the (cached) derived attributes of a graph object before deriving the next object from it."""
+        _ = (graph.inputs, graph.outputs, graph.definition_hash, graph.controlled_by, graph.self_producers, graph.has_cycles, graph.selected, graph.entrypoints_config)
+        for n in graph.iter_nodes():
+            _ = (n.inputs, n.outputs, n.definition_hash)
 
 
 def compile_graph(gspec: dict, rt: Any, mode: str) -> Any:
